@@ -2015,7 +2015,16 @@ SUBS = [
     Sub("natsel", exec_natsel, strategy=natsel_cases(), quick=96, thorough=16 * 300, shards_quick=6, weight=110.0),
 ]
 
-KNOWN_PREDICATES = {}
+def _kp_unobserved_state_with_data_pi(case, sig, msg):
+    """the alignment lacks one of the four nucleotides altogether and the null takes its motif
+    probabilities from the data (the unobserved state then sits at the library's probability floor)"""
+    rows = case.get("rows") or {}
+    seen = set("".join(rows.values())) & set("ACGT")
+    null = case.get("null") or {}
+    return bool(rows) and len(seen) < 4 and null.get("pi") is None
+
+
+KNOWN_PREDICATES = {"unobserved_state_with_data_pi": _kp_unobserved_state_with_data_pi}
 
 META = {
     "technique": "Hypothesis-generated nested model pairs and optimiser runs; metamorphic relation null.lnL == alt.lnL after initialise_from_nested and lnL_after >= lnL_before, backed by an independent reference likelihood (rate-matrix cell tables, scipy expm, Felsenstein pruning) written in the check; hypothesis / model_collection / natsel_* apps end to end",
